@@ -205,6 +205,17 @@ let run_case op t =
        let row ((w, n), d) ((bits, _), _) = [ str_of_z n; str_of_z d; "1"; b2s (Z.leb bits w) ] in
        (legs (List.concat (List.map2 row typedefs_m typedefs_spec)),
         legs (List.concat (List.map (fun ((_, n), d) -> [ str_of_z n; str_of_z d; "1"; "1" ]) typedefs_spec)))
+     | "sratio" ->
+       (* C12_ratio_signed *)
+       let zs = [ (zi (-1), zi 2); (zi 1, zi (-2)); (zi (-4), zi (-6)); (Z0, zi 5); (Z0, zi (-5)); (zi (-120), zi 2);
+                  (max64, Z.opp max64); (Z.opp max64, zi 3); (zi 1001, zi (-30000)) ] in
+       let m = List.concat (List.map (fun (a, b) ->
+           match ratio_m a b with Val (n, d) -> [ str_of_z n; str_of_z d ] | _ -> [ "bad" ]) zs) in
+       let sgn a = if Z.eqb a Z0 then Z0 else if Z.leb a Z0 then zi (-1) else zi 1 in
+       let sp = List.concat (List.map (fun (a, b) ->
+           let g = Z.gcd a b in
+           [ str_of_z (Z.mul (Z.mul (sgn a) (sgn b)) (Z.div (Z.abs a) g)); str_of_z (Z.div (Z.abs b) g) ]) zs) in
+       (legs m, legs sp)
      | "typedef_bits" ->
        (legs (List.map (fun ((w, _), _) -> str_of_z w) typedefs_m), "na")
      (* ---- floating-point target representation (duration<double, P2> from an integer count):
@@ -217,6 +228,24 @@ let run_case op t =
            | Val r -> join [ "ok"; str_of_z (enc64 r) ]
            | Ub _ -> "ub" | IllFormed -> "illformed" | Fuel -> "fuel"),
         if pok && fspec_ok n1 d1 n2 d2 c then join [ "ok"; str_of_z (enc64 (fcast_spec n1 d1 n2 d2 c)) ] else "na")
+     (* ---- floating-point SOURCE representation (extracted Flocq model; no Coq theorems: spec leg na) *)
+     | "d_cast" ->
+       let x = dec64 (next_z t) in
+       ((match dd_cast_m p.a p.b x with
+           | Val r -> join [ "ok"; str_of_z (enc64 r) ]
+           | Ub _ -> ub_leg | IllFormed -> "illformed" | Fuel -> "fuel"), "na")
+     | "d_rnd4" ->
+       let x = dec64 (next_z t) in
+       (legs [ tok_of (di_cast_m p.a p.b x); tok_of (di_floor_m p.a p.b x); tok_of (di_ceil_m p.a p.b x);
+               tok_of (di_round_m p.a p.b x) ], "na")
+     | "d_arith" ->
+       let x = dec64 (next_z t) in
+       let y = dec64 (next_z t) in
+       let fb = function Val r -> str_of_z (enc64 r) | Ub _ -> "ub" | IllFormed -> "illformed" | Fuel -> "fuel" in
+       let nb = function Val b -> Val (not b) | o -> o in
+       let lt = dd_lt_m p.a p.b x y and gt = dd_lt_m p.b p.a y x and eq = dd_eq_m p.a p.b x y in
+       (legs ([ fb (dd_plus_m p.a p.b x y); fb (dd_minus_m p.a p.b x y); fb (dd_div_m p.a p.b x y) ]
+              @ List.map tokb_of [ eq; nb eq; lt; nb gt; gt; nb lt ]), "na")
      | _ -> raise Not_found)
 
 let () = main run_case
